@@ -255,6 +255,9 @@ class NestedAsyncEvent(NestedEvent):
                     while elems:
                         done.add(machine.state_cls.separator.join(elems))
                         elems.pop()
+        # a transition that has been executed is not undone by a later state whose transitions were all blocked
+        if done:
+            event_data.result = True
         return event_data.result
 
     async def _process(self, event_data):
